@@ -12,13 +12,13 @@ def job(item):
     import sympy as sp
     import z3
     tup, rational, which = item["tuple"], item["rational"], item["which"]
-    name = "(" + "; ".join(tup) + ")"
+    name = "(" + "; ".join(tup) + ")" + (f"@counter={item['counter']}" if item.get("counter") else "")
     out = {"name": name, "records": [], "stats": smt.new_stats(), "refusals": [], "checked": 0, "nontrivial": 0, "basis": None}
     try:
         if item.get("closed_forms") is not None:
             gsyms, cfs, basis, n0 = item["closed_forms"]()
         else:
-            gsyms, cfs, basis = invfam.run_real(tup, item.get("timeout", 120))
+            gsyms, cfs, basis = invfam.run_real(tup, item.get("timeout", 120), item.get("counter", 0))
             n0 = 0
     except polar_iface.JobTimeout:
         out["refusals"].append({"id": name, "type": "Timeout", "msg": "InvariantIdeal.compute_basis", "where": ""})
@@ -101,6 +101,10 @@ def main(pid="C06"):
     tups = invfam.tuples(run.quick, run.seed)
     D = 2 if run.quick else 3
     items = [{"tuple": t, "rational": r, "which": pid, "D": (3 if t in invfam.MUST else D), "timeout": 60 if run.quick else 180} for t, r in tups]
+    # the mechanism tuples again with the process-wide fresh-name counter advanced (digit-length boundaries of the generated names)
+    for t in invfam.MUST[: (8 if run.quick else len(invfam.MUST))]:
+        for c in ((9, 98) if run.quick else (7, 8, 9, 10, 97, 98, 99, 998)):
+            items.append({"tuple": t, "rational": True, "which": pid, "D": 3, "timeout": 60, "counter": c})
     if run.args.only:
         items = [i for i in items if run.args.only in "; ".join(i["tuple"])]
     results = jobs.run_jobs(job, items, timeout=300 if run.quick else 900)
